@@ -3140,11 +3140,12 @@ impl Connection {
                             "client sent HANDSHAKE_DONE",
                         ));
                     }
+                    // A retransmitted HANDSHAKE_DONE confirms nothing new
                     if self.spaces[SpaceId::Handshake].crypto.is_some() {
                         self.discard_space(now, SpaceId::Handshake);
+                        self.events.push_back(Event::HandshakeConfirmed);
+                        trace!("handshake confirmed");
                     }
-                    self.events.push_back(Event::HandshakeConfirmed);
-                    trace!("handshake confirmed");
                 }
             }
         }
